@@ -144,6 +144,47 @@ fn real_main(args: &[String]) -> i32 {
                 None => 2,
             }
         }
+        #[cfg(feature = "stream")]
+        "ptr32" => {
+            if args.len() < 7 {
+                return usage();
+            }
+            ptr32_main(
+                &args[2],
+                args[3].parse().unwrap_or(1),
+                args[4].parse().unwrap_or(0),
+                args[5].parse().unwrap_or(0),
+                args[6].parse().unwrap_or(1),
+            )
+        }
+        #[cfg(feature = "stream")]
+        "ptr32-case" => {
+            // replay of one pointer-width case: re-derived from (seed, case), judged, announced
+            if args.len() < 6 {
+                return usage();
+            }
+            sup::silence_panics();
+            let prop = args[2].as_str();
+            let sc = sweep::ptr32_scenario(prop, args[3].parse().unwrap_or(1), args[4].parse().unwrap_or(0));
+            let run = equiv::execute(&sc);
+            let mut f = equiv::RunFacts::default();
+            let v = if prop == "C07" {
+                equiv::check_c07(&sc, &run, &mut f)
+            } else {
+                equiv::check_c08(&sc, &run, &mut f)
+            };
+            match v {
+                Some(v) => {
+                    eprintln!("replayed (usize = {} bits): clause={} op={} at_op_id={} :: {}", usize::BITS, v.clause, v.op, v.at_op_id, v.detail);
+                    println!("VIOLATION property={} replay={}", prop, args[5]);
+                    1
+                }
+                None => {
+                    println!("replay (usize = {} bits): no violation; the property holds on this case with the current tree", usize::BITS);
+                    0
+                }
+            }
+        }
         "digest" => {
             if args.len() < 7 {
                 return usage();
@@ -162,6 +203,229 @@ fn real_main(args: &[String]) -> i32 {
         }
         _ => usage(),
     }
+}
+
+/// Pointer-width pass (run under Miri for a 32-bit target, but works on any host): cases
+/// `start, start+step, ...  < end` of `sweep::ptr32_cases()`, visited in an order decided by
+/// the master seed; each scenario is executed once and judged by the oracle of every
+/// property in `props` ("C07", "C08" or "C07,C08"). One line per case
+/// on stdout (`PTR32 ...`), violations are minimised (small budget), written as replay files
+/// and announced with the usual VIOLATION line. No threads, no child processes, no clock.
+#[cfg(feature = "stream")]
+fn ptr32_main(props: &str, seed: u64, start: u64, end: u64, step: u64) -> i32 {
+    sup::silence_panics();
+    let total = sweep::ptr32_cases();
+    // order of visit: every 8-byte field in turn (one pass = all of them); even passes use the
+    // wrapping twin (intact + 2^32), odd passes rotate through the other values; the base
+    // image changes with every case, starting from a seed-dependent one
+    let (nw, nv, nimg) = sweep::ptr32_dims();
+    let off = rng::mix(seed, 0x3232) % nimg;
+    let others: [u64; 5] = [3, 5, 6, 7, 1];
+    let mut bad = 0;
+    let mut j = start;
+    println!("PTR32-START usize_bits={} cases_total={}", usize::BITS, total);
+    while j < end {
+        let fpos = j % nw;
+        let pass = j / nw;
+        let vpos = if pass % 2 == 0 { 0 } else { others[((pass / 2 + j) % 5) as usize] };
+        let img = (off + j + pass * 13) % nimg;
+        let case = img * nw * nv + fpos * nv + vpos;
+        let mut line = format!("PTR32 j={} case={}", j, case);
+        let sc0 = sweep::ptr32_scenario("C08", seed, case);
+        let run = equiv::execute(&sc0);
+        for prop in props.split(',') {
+            let mut sc = sc0.clone();
+            sc.prop = prop.to_string();
+            let mut f = equiv::RunFacts::default();
+            let v = if prop == "C07" {
+                equiv::check_c07(&sc, &run, &mut f)
+            } else {
+                equiv::check_c08(&sc, &run, &mut f)
+            };
+            equiv::collect_facts(&sc, &run, &mut f);
+            if prop == props.split(',').next().unwrap_or("") {
+                let errs: u32 = (0..17).map(|i| f.op_grid[i][1] + f.op_grid[i][3]).sum();
+                let oks: u32 = (0..17).map(|i| f.op_grid[i][0]).sum();
+                line.push_str(&format!(
+                    " io_events={} stream_ok={} stream_err={} set={}",
+                    f.io_events,
+                    oks,
+                    errs,
+                    sc.recipe.gs("set")
+                ));
+            }
+            match v {
+                None => line.push_str(&format!(" {}=held", prop)),
+                Some(v) => {
+                    bad += 1;
+                    // no minimisation under the interpreter: the case is one point of a
+                    // deterministic sweep, replayed by re-deriving it from (seed, case)
+                    let (msc, mv) = (sc.clone(), v.clone());
+                    let path = format!(
+                        "{}/replays/{}-{}-ptr32-{}.json",
+                        sup::verif_root(),
+                        prop,
+                        seed,
+                        case
+                    );
+                    let _ = std::fs::create_dir_all(format!("{}/replays", sup::verif_root()));
+                    let _ = std::fs::write(&path, sup::replay_json(&msc, &mv, false, 0).pretty());
+                    line.push_str(&format!(" {}=VIOLATED[{}:{}]", prop, mv.clause, mv.op));
+                    eprintln!("  clause={} op={} :: {}", mv.clause, mv.op, mv.detail);
+                    println!("VIOLATION property={} replay={}", prop, path);
+                }
+            }
+        }
+        println!("{}", line);
+        j += step.max(1);
+    }
+    println!("PTR32-DONE violations={}", bad);
+    if bad > 0 {
+        1
+    } else {
+        0
+    }
+}
+
+/// The pointer-width pass: builds the simulator for i686-unknown-linux-gnu under Miri (no
+/// linker or 32-bit libc needed: Miri interprets) and runs `cases` cases of `elfsim ptr32`
+/// split over `workers` interpreter processes. Infrastructure trouble (no nightly, no Miri,
+/// a worker that dies or runs out of time) is *recorded* and never a verdict: only
+/// VIOLATION lines printed by a worker count.
+#[cfg(feature = "stream")]
+fn ptr32_pass(prop: &str, seed: u64, cases: u64, workers: u64, cap_s: u64) -> (J, usize) {
+    use std::process::{Command, Stdio};
+    let t0 = Instant::now();
+    let root = sup::verif_root();
+    let manifest_dir = std::env::var("ELFSIM_MANIFEST_DIR").unwrap_or_else(|_| format!("{}/sim", root));
+    let mk = |start: u64, end: u64, step: u64| {
+        let mut c = Command::new("cargo");
+        c.args([
+            "+nightly",
+            "miri",
+            "run",
+            "--offline",
+            "--quiet",
+            "--target",
+            "i686-unknown-linux-gnu",
+            "--manifest-path",
+            &format!("{}/Cargo.toml", manifest_dir),
+            "--target-dir",
+            &format!("{}/target/miri32", root),
+            "--",
+            "ptr32",
+            prop,
+            &seed.to_string(),
+            &start.to_string(),
+            &end.to_string(),
+            &step.to_string(),
+        ])
+        .env("MIRIFLAGS", "-Zmiri-disable-isolation")
+        .env("CARGO_NET_OFFLINE", "true")
+        .env("ELFSIM_VERIF", &root)
+        .env("RUSTFLAGS", "-Awarnings")
+        .stdin(Stdio::null())
+        .stdout(Stdio::piped())
+        .stderr(Stdio::piped());
+        c
+    };
+    let mut j = J::obj()
+        .with("target", J::s("i686-unknown-linux-gnu, interpreted by Miri (usize = 32 bits)"))
+        .with("cases_planned", J::u(cases))
+        .with(
+            "rule",
+            J::s("case = ELF64 field-sweep image with one 8-byte field set to a value a 32-bit host cannot address (intact + 2^32 every other case, 2^32-1, 2^63, u64::MAX, top bit flipped, 5*len+10000) x the full stream query set, judged by this property's oracle; cases visited in a seed-dependent order"),
+        );
+    // build (and sysroot) first, with an empty case range
+    let built = mk(0, 0, 1).output();
+    let build_ok = match &built {
+        Ok(o) => o.status.success() && String::from_utf8_lossy(&o.stdout).contains("PTR32-DONE"),
+        Err(_) => false,
+    };
+    if !build_ok {
+        let why = match built {
+            Ok(o) => String::from_utf8_lossy(&o.stderr).lines().rev().take(6).collect::<Vec<_>>().join(" | "),
+            Err(e) => e.to_string(),
+        };
+        eprintln!("pointer-width pass not run (recorded in the evidence, not a verdict): {}", why);
+        j.set("status", J::s("not run: the simulator could not be built or started under Miri for the 32-bit target"));
+        j.set("reason", J::Str(why));
+        j.set("cases_run", J::u(0));
+        return (j, 0);
+    }
+    let w = workers.min(cases.max(1));
+    let mut kids = Vec::new();
+    for i in 0..w {
+        if let Ok(k) = mk(i, cases, w).spawn() {
+            kids.push(k);
+        }
+    }
+    let mut cases_run = 0u64;
+    let mut held = 0u64;
+    let mut viol = 0usize;
+    let mut incomplete = 0u64;
+    let mut usize_bits = String::new();
+    let mut io_events = 0u64;
+    let mut samples: Vec<J> = Vec::new();
+    for mut k in kids {
+        // wait with a cap
+        let out = loop {
+            match k.try_wait() {
+                Ok(Some(_)) => break k.wait_with_output().ok(),
+                Ok(None) => {
+                    if t0.elapsed().as_secs() > cap_s {
+                        let _ = k.kill();
+                        break k.wait_with_output().ok();
+                    }
+                    std::thread::sleep(std::time::Duration::from_millis(50));
+                }
+                Err(_) => break None,
+            }
+        };
+        let Some(out) = out else {
+            incomplete += 1;
+            continue;
+        };
+        let text = String::from_utf8_lossy(&out.stdout).to_string();
+        let mut done = false;
+        for l in text.lines() {
+            if let Some(rest) = l.strip_prefix("PTR32-START ") {
+                usize_bits = rest.split_whitespace().next().unwrap_or("").to_string();
+            } else if l.starts_with("PTR32-DONE") {
+                done = true;
+            } else if l.starts_with("PTR32 ") {
+                cases_run += 1;
+                if l.ends_with("=held") {
+                    held += 1;
+                }
+                if let Some(p) = l.find("io_events=") {
+                    io_events += l[p + 10..].split_whitespace().next().and_then(|s| s.parse::<u64>().ok()).unwrap_or(0);
+                }
+                if samples.len() < 6 {
+                    samples.push(J::Str(l.to_string()));
+                }
+            } else if l.starts_with("VIOLATION ") {
+                viol += 1;
+                println!("{}", l);
+            }
+        }
+        if !done {
+            incomplete += 1;
+            let tail: Vec<&str> = std::str::from_utf8(&out.stderr).unwrap_or("").lines().rev().take(4).collect();
+            eprintln!("pointer-width pass: an interpreter process did not finish (recorded, not a verdict): {}", tail.join(" | "));
+        }
+    }
+    j.set("status", J::s(if incomplete == 0 { "completed" } else { "partly run: some interpreter processes did not finish (time cap or interpreter failure); recorded, not a verdict" }));
+    j.set("host", J::Str(usize_bits));
+    j.set("cases_run", J::u(cases_run));
+    j.set("cases_held", J::u(held));
+    j.set("violations", J::u(viol as u64));
+    j.set("interpreter_processes", J::u(w));
+    j.set("interpreter_processes_incomplete", J::u(incomplete));
+    j.set("sim_time_io_events", J::u(io_events));
+    j.set("samples", J::Arr(samples));
+    j.set("wall_s", J::Float(t0.elapsed().as_secs_f64()));
+    (j, viol)
 }
 
 /// Per-run digests (event log, outcomes, allocation sizes) for the determinism self-test.
@@ -607,6 +871,20 @@ fn check_main(
                 total_violations += 1;
             }
         }
+    }
+
+    #[cfg(feature = "stream")]
+    if (prop == "C07" || prop == "C08") && std::env::var("ELFSIM_PTR32").map(|v| v != "0").unwrap_or(true) {
+        // configuration swarm, host pointer width: the same simulator interpreted by Miri for a
+        // 32-bit target (usize = 32 bits) on field-sweep images whose 8-byte fields claim more
+        // than such a host can address
+        let n: u64 = std::env::var("ELFSIM_PTR32_CASES")
+            .ok()
+            .and_then(|s| s.parse().ok())
+            .unwrap_or(if tier == "thorough" { 27 * 4 } else { 16 });
+        let (j, viol) = ptr32_pass(prop, seed, n, workers.max(1) as u64, if tier == "thorough" { 1500 } else { 200 });
+        total_violations += viol;
+        extra.set("pointer_width_32_pass", j);
     }
 
     let wall = t0.elapsed().as_secs_f64();
